@@ -20,6 +20,8 @@ def _pick(shapes, sizes, n):
     order = [k for k in order if sizes[k] <= 4096] or order[:1]
     if len(order) <= n:
         return [shapes[k] for k in order]
+    if n == 1:
+        return [shapes[order[(2 * len(order)) // 3]]]
     idx = sorted({round(i * (len(order) - 1) / (n - 1)) for i in range(n)})
     return [shapes[order[i]] for i in idx]
 
